@@ -97,7 +97,7 @@ func (in *Interp) hashSum(alg string, size int, stream []*smt.Term) []*smt.Term 
 	if allConst && in.eng.ReplayModel != nil {
 		// concrete re-execution: every stream is constant now; this digest was
 		// modelled in the symbolic run exactly if the model names its output
-		name := fmt.Sprintf("%s!%d", sanitize(tag), in.symCount[tag])
+		name := freshName(tag, in.symCount[tag], 8)
 		if _, modelled := in.eng.ReplayModel[name]; modelled {
 			allConst = false
 		}
